@@ -268,10 +268,20 @@ for _pid, (_t, _x) in ADD6.items():
 
 # rules added in the session of 2026-09-29 (sixth round)
 ADD7 = {
+    "C01": ("; use audit of the error result of every copy out of a blob reader", " Also: the error that ends a blob's stream is looked at by every consumer."),
+    "C02": ("; origin audit of buffer views handed to WithRaw; source audit of the schema1 decode", " Also: a raw body is not a view into a buffer that outlives the call; signed schema1 fields are decoded from the digested payload."),
+    "C03": ("; must-follow between the manifest copy and the blob copy of an unknown index entry; waiter result rule", " Also: an entry of unknown type is tried as a manifest first; a waiter reports the first copier's failure."),
+    "C04": ("; waiter result rule shared with C03.R4; operand audit of ref.EqualRepository / EqualRegistry", " Also: a child that waited for shared content learns whether that copy failed; 'same repository' is decided on the references' own fields."),
+    "C06": ("; origin audit of the index reader's returns shared with C14.R9; control dependence of the index setter on the lookup", " Also: the index is read from the file on every call; a push always sets its index entry."),
+    "C07": ("; who-may-remove audit over the reference graph shared with C08.R11; mark recursion rule shared with C08.R4", " Also: content is removed only by an explicit delete or by the sweep; the collector walks every entry whatever the mark set already holds."),
+    "C08": ("; who-may-remove audit over the reference graph; sibling agreement of the bookkeeping map keys; control dependence of the mark recursion on mark-set membership", " Also: only BlobDelete, ManifestDelete and the sweep remove files; every access to the GC bookkeeping builds its key the same way; the walk does not skip entries that are merely marked."),
     "C09": ("; close-error typestate of the archive writers the export creates", " Also: the error of finishing the tar stream and the compressed stream reaches the caller of the export (found D20)."),
-    "C11": ("; backward slice from stores into secret fields to the text they are cut out of, met with the logger arguments", " Also: the string or map a password is parsed out of does not reach the log (found D23)."),
-    "C17": ("; response typestate: every reghttp response of the registry scheme is closed, deferred-closed or handed on before any return", " Also: no function of the registry scheme returns with an open response (found D24)."),
-    "C18": ("; must-not-reach from the failure edges of the backup copy and of the target lookup to the overwriting copy", " Also: a failed backup stops the overwrite and a failed target lookup is not taken for an absent tag (both violated on the unchanged tree: known findings D21, D22)."),
+    "C11": ("; backward slice from stores into secret fields (and from documents decoded into structs with secret fields) to the text they come from, met with the logger arguments", " Also: the string, map or response body a password or token is parsed out of does not reach the log (found D23)."),
+    "C12": ("; argument-identity audit of self-recursive request functions; guard/derivation audit of stores to the per-host release time", " Also: no operation restarts itself by recursion with unchanged arguments; a host's release time is only replaced with a look at what it holds."),
+    "C14": ("; origin audit of the index reader's returns; operand audit of ref.EqualRepository shared with C04.R16", " Also: the layout index is decoded by the call that returns it, never remembered; 'nothing to transfer' is decided on the references' own fields."),
+    "C16": ("; origin audit of the list handed to the ranked search; dominance of normalize() over comparisons with the local platform in Parse", " Also: the platform lookup ranks the whole index; short notations are completed after normalisation."),
+    "C17": ("; response typestate over every reghttp Do of the registry scheme; lockset state at the layout throttle's blocking acquires", " Also: no function of the registry scheme returns with an open response (found D24); no waiting for a layout slot with the layout mutex held."),
+    "C18": ("; must-not-reach from the failure edges of the backup copy and of the target lookup to the overwriting copy; must-not-return between backup and overwrite; page-merge rule shared with C06.R11", " Also: a failed backup stops the overwrite and a failed target lookup is not taken for an absent tag (both violated on the unchanged tree: known findings D21, D22); nothing decides 'no overwrite' after the backup was written; tag pages are merged without an order assumption."),
 }
 for _pid, (_t, _x) in ADD7.items():
     CLAIMED[_pid]["technique"] += _t
